@@ -79,7 +79,7 @@ TIMING_KEYS = ("warmup-iterations", "iterations", "warmup-time-period", "time-pe
 LEAF_KEYS = ("name", "tags", "meta", "clients") + TIMING_KEYS + ("target-throughput", "target-interval", "schedule")
 
 # operation types: a few built-in ones (force-merge / sleep are administrative) and two user-defined ones
-OP_TYPES = ("bulk", "search", "force-merge", "sleep", "sim-op", "custom-operation-type")
+OP_TYPES = ("bulk", "search", "force-merge", "sleep", "sim-op", "custom-operation-type", "node_storage")  # (plugins register types with "_" too)
 # docs/track.rst: include-in-reporting "defaults to true for normal operations and to false for administrative operations"
 ADMIN_OP_TYPES = frozenset({"force-merge", "sleep", "refresh", "cluster-health", "put-pipeline", "create-index", "delete-index", "put-settings"})
 BUILTIN_OP_TYPES = frozenset({"bulk", "search", "force-merge", "sleep", "raw-request", "refresh", "cluster-health", "put-pipeline",
@@ -509,7 +509,8 @@ def filter_specs(draw, spec):
     ]
     # near misses: filters are case-sensitive and match whole names / types / tags
     near_misses = []
-    for near in (names[0].swapcase(), names[0][:-1], names[-1] + "-b", f"type:{types[0].upper()}", f"type:{types[0][:-1]}") + tuple(
+    swapped = tuple(f"type:{t.replace('_', '-') if '_' in t else t.replace('-', '_')}" for t in types if "_" in t or "-" in t)
+    for near in (names[0].swapcase(), names[0][:-1], names[-1] + "-b", f"type:{types[0].upper()}", f"type:{types[0][:-1]}") + swapped[:2] + tuple(
         f"tag:{v}" for t in tags[:2] for v in (t.upper(), t[:-1], t[1:], t + "s") if v
     ):
         if near and near not in names and near not in absent and near not in present and near not in near_misses:
